@@ -41,7 +41,8 @@ ASSUMPTIONS = ["metafiles are canonical bencode with duplicate-free keys (what t
                "a v2-only metafile asked for version 1 is outside the quantifier (the tool then emits no xt: observed, counted, not judged)"]
 
 RESERVED = [" ", "&", "=", "%", "+", "#", "/", "?", ":"]
-NONASCII = ["é", "ü", "世", "日本", "😀", "\u00a0", "ß", "Ж"]
+# precomposed AND decomposed / compatibility forms: the URI must carry the name's own code points, not a normalised spelling
+NONASCII = ["é", "ü", "世", "日本", "😀", "\u00a0", "ß", "Ж", "e\u0301", "A\u030a", "\u212b", "\u2126", "\u1112\u1161\u11ab", "\ufb01", "\uf900"]
 PLAIN = list("abzAZ09-_.~") + ["seed", "file", "announce", "x1"]
 OTHER = list("'\"<>[]{}|\\^`@!$()*,;") + ["%20", "%2B", "%2b", "%C3%A9", "%zz", "%4", "%%", "++", "&amp;", "a=b&c=d", "?k=v", "#top", "+ +"]
 CONTROL = ["\t", "\n", "\r", "\x01", "\x7f"]
